@@ -137,3 +137,53 @@ func VerifClientAck(kemPub, k, cookie []byte, name certs.Name) ([]byte, error) {
 	n, err := hs.writePQClientAck(buf)
 	return buf[:n], err
 }
+
+// VerifClientAckRawSNI is VerifClientAck with the plaintext of the encrypted
+// server-name field given as bytes (padded or cut to SNILen), so that the
+// harness can present name blocks no encoder produces inside a message whose
+// cookie, transcript and MAC are valid.
+func VerifClientAckRawSNI(kemPub, k, cookie, sni []byte) ([]byte, error) {
+	pub, err := keys.ParseKEMPublicKeyFromBytes(kemPub)
+	if err != nil {
+		return nil, err
+	}
+	if len(cookie) != PQCookieLen {
+		return nil, ErrInvalidMessage
+	}
+	hs := new(HandshakeState)
+	hs.kem = new(kemState)
+	hs.kem.ephemeral.Public = *pub
+	hs.dh = new(dhState)
+	hs.dh.ephemeral.Generate()
+	hs.duplex.InitializeEmpty()
+	hs.duplex.Absorb([]byte(PostQuantumProtocolName))
+	hs.duplex.Absorb([]byte{byte(MessageTypeClientHello), Version, 0, 0})
+	hs.duplex.Absorb(kemPub)
+	hs.duplex.Squeeze(hs.macBuf[:])
+	hs.duplex.Absorb([]byte{byte(MessageTypeServerHello), 0, 0, 0})
+	hs.duplex.Absorb(k)
+	hs.duplex.Absorb(cookie)
+	hs.duplex.Squeeze(hs.macBuf[:])
+	hs.RekeyFromSqueeze(PostQuantumProtocolName)
+	// the layout of writePQClientAck
+	buf := make([]byte, HeaderLen+DHLen+KemKeyLen+PQCookieLen+SNILen+MacLen)
+	b := buf
+	b[0] = byte(MessageTypeClientAck)
+	hs.duplex.Absorb(b[:HeaderLen])
+	b = b[HeaderLen:]
+	copy(b, hs.dh.ephemeral.Public[:])
+	hs.duplex.Absorb(b[:DHLen])
+	b = b[DHLen:]
+	copy(b, kemPub)
+	hs.duplex.Absorb(b[:KemKeyLen])
+	b = b[KemKeyLen:]
+	copy(b, cookie)
+	hs.duplex.Absorb(b[:PQCookieLen])
+	b = b[PQCookieLen:]
+	var plain [SNILen]byte
+	copy(plain[:], sni)
+	hs.duplex.Encrypt(b[:SNILen], plain[:])
+	b = b[SNILen:]
+	hs.duplex.Squeeze(b[:MacLen])
+	return buf, nil
+}
